@@ -844,7 +844,7 @@ SETCONST_KNOWN = {
     'bvh_aabb': (('body_ipos_iquat',), 'setconst-bvh-stale-after-ipos-edit',
                  'Body BVH boxes are expressed in the inertial frame; with the stale boxes the midphase drops contacts '
                  '(observed: 3 contacts -> 0 after moving ipos by 3 m).'),
-    'tendon_lengthspring': (('qpos0', 'qpos_spring'), 'setconst-tendon-lengthspring-stale',
+    'tendon_lengthspring': (('qpos0', 'qpos_spring', 'body_pos_quat'), 'setconst-tendon-lengthspring-stale',
                             'Tendons with automatic springlength (-1) are resolved once at compile time; the "auto" '
                             'information is lost, so setSpring() never recomputes them.'),
 }
